@@ -12,6 +12,8 @@ tAB  == <<45, 45, 97, 45, 98>>                \* --a-b
 tA_B == <<45, 45, 97, 95, 98>>                \* --a_b
 v1   == <<49>>                                \* 1
 vQ   == <<34, 120, 32, 121, 34>>              \* "x y"
+vN   == <<45, 53>>                            \* -5     a value that starts with a single dash
+vD   == <<45>>                                \* -      a lone dash
 fG   == <<103>> \o Ext                        \* g.vtm   loads
 fH   == <<104>> \o Ext                        \* h.vtm   loads
 fS   == <<115>> \o Ext                        \* s.vtm   syntax error at 2:4
@@ -41,9 +43,10 @@ ModeLen  == IF Thorough THEN 3 ELSE 2      \* longest argv combined with every m
 MaxCheck == IF Thorough THEN 4 ELSE 3      \* files given to `textx check`
 
 \* ---- family 1: model files first, then <= MaxArgs custom arguments, each
-\*      bare, valued or with a quoted value, over the names a, a-b, a_b, in every order
+\*      bare, valued, with a quoted value or with a value starting with a dash, over the names
+\*      a, a-b, a_b, in every order
 \*      (quick: MaxArgs arguments only after the single valid model file)
-Items    == UNION {{<<n>>, <<n, v1>>, <<n, vQ>>} : n \in {tA, tAB, tA_B}}
+Items    == UNION {{<<n>>, <<n, v1>>, <<n, vQ>>, <<n, vN>>} : n \in {tA, tAB, tA_B}}
 Prefixes == {<<>>, <<fG>>, <<fS>>, <<fG, fH>>, <<fG, fE>>}
 RECURSIVE Flat(_)
 Flat(ss) == IF ss = <<>> THEN <<>> ELSE Head(ss) \o Flat(Tail(ss))
@@ -54,7 +57,7 @@ Family1  == IF Thorough
                  \cup {<<fG>> \o Flat(s) : s \in ItemSeqs(MaxArgs, MaxArgs)}
 
 \* ---- family 2: every token sequence up to MaxLen (all orders, files anywhere)
-Tokens  == {tA, tAB, tA_B, v1, vQ, fG, fS} \cup (IF Thorough THEN {TokOverwrite} ELSE {})
+Tokens  == {tA, tAB, tA_B, v1, vQ, vN, vD, fG, fS} \cup (IF Thorough THEN {TokOverwrite} ELSE {})
 Family2 == UNION {[1..k -> Tokens] : k \in 1..MaxLen}
 
 Modes == {"language", "grammar", "ext"}
